@@ -178,6 +178,12 @@ def menu(kmax, quick):
             out.append((k, ('rgc', k, bias)))
         out.append((k, ('table', [O.kmer(v, k) for v in range(4 ** k) if v % 3 != 0])))
         out.append((k, ('table', [O.kmer(v, k) for v in range(4 ** k) if bin(v).count('1') % 2 == 0])))
+        # predicates that are NOT invariant under reverse complement (the three above are): a one-strand motif,
+        # a positional rule, a residue class, a composition skew
+        out.append((k, ('table', [w for w in (O.kmer(v, k) for v in range(4 ** k)) if 'GA' not in w])))
+        out.append((k, ('table', [w for w in (O.kmer(v, k) for v in range(4 ** k)) if w[0] != 'T' and w[-1] != 'G'])))
+        out.append((k, ('table', [O.kmer(v, k) for v in range(4 ** k) if v % 5 != 0])))
+        out.append((k, ('table', [w for w in (O.kmer(v, k) for v in range(4 ** k)) if w.count('A') >= w.count('T')])))
     return out
 
 
